@@ -25,11 +25,18 @@ vars == <<pi, hist, cur>>
 P == Progs[pi]
 InputRels(Q) == { Q.rels[i].name : i \in { j \in DOMAIN Q.rels : Q.rels[j].input } }
 PlainRels(Q) == { Q.rels[i].name : i \in { j \in DOMAIN Q.rels : Q.rels[j].kind = "rel" /\ Q.rels[j].ds = "-" } }
+(* lattice relations whose rows TLC can enumerate (integer-valued lattices): rows may be pushed into them after a run,  *)
+(* also for keys that already have a row - the program value then holds two rows for that key and the next run must     *)
+(* still reach, key-wise joined, what a fresh run on everything pushed reaches                                          *)
+SimpleCol(ty) == ty \in {"int", "opt", "max_i32", "dual_i32", "set_i32"}
+PushableLats(Q) == { Q.rels[i].name : i \in { j \in DOMAIN Q.rels : Q.rels[j].kind = "lat" /\ Q.rels[j].ds = "-"
+                                                                   /\ \A c \in DOMAIN Q.rels[j].cols : SimpleCol(Q.rels[j].cols[c]) } }
 
 ColVals(Q, ty) ==
    CASE ty = "int" -> 0 .. (Q.dom - 1)
      [] ty = "opt" -> {None} \cup { Some(x) : x \in 0 .. (Q.dom - 1) }
      [] ty \in {"max_i32", "dual_i32"} -> 0 .. (Q.dom - 1)
+     [] ty = "set_i32" -> SUBSET (0 .. (Q.dom - 1))
 RECURSIVE TuplesOver(_, _, _)
 TuplesOver(Q, cols, i) ==
    IF i > Len(cols) THEN { <<>> }
@@ -58,8 +65,12 @@ PushInput(r, t) ==
 (* after a run: any plain relation, only tuples the program does not hold yet *)
 PushLater(r, t) ==
    /\ hist # <<>> /\ Len(hist) < MaxRuns /\ Cardinality(cur) < MaxPush
-   /\ r \in PlainRels(P) /\ <<r, t>> \notin cur
-   /\ t \notin LeastModel(P, Sealed)[r]
+   /\ r \in PlainRels(P) \cup PushableLats(P) /\ <<r, t>> \notin cur
+   /\ IF IsLat(P, r)
+      THEN /\ \A f \in cur : f[1] = r => Front(f[2]) # Front(t)
+           \* new information only: not below what the program already holds for that key
+           /\ ~ \E u \in LeastModel(P, Sealed)[r] : Front(u) = Front(t) /\ Leq(LatTy(RelOf(P, r).lat), Last(t), Last(u))
+      ELSE t \notin LeastModel(P, Sealed)[r]
    /\ cur' = cur \cup { <<r, t>> }
    /\ UNCHANGED <<pi, hist>>
 
@@ -70,7 +81,7 @@ Run ==
 
 Next == \/ Run
         \/ \E r \in InputRels(P) : \E t \in Tuples(P, r) : PushInput(r, t)
-        \/ \E r \in PlainRels(P) : \E t \in Tuples(P, r) : PushLater(r, t)
+        \/ \E r \in PlainRels(P) \cup PushableLats(P) : \E t \in Tuples(P, r) : PushLater(r, t)
 
 Spec == Init /\ [][Next]_vars
 
